@@ -414,7 +414,7 @@ impl<'a, T: 'a> Iterator for SurfaceIter<'a, T> {
     }
 
     fn nth(&mut self, n: usize) -> Option<Self::Item> {
-        self.index += n + 1;
+        self.index = self.index.saturating_add(n).saturating_add(1);
         let pos = self.shape.nth(self.index - 1)?;
         self.data.get(self.shape.offset(pos))
     }
@@ -471,7 +471,7 @@ impl<'a, T: 'a> Iterator for SurfaceMutIter<'a, T> {
     }
 
     fn nth(&mut self, n: usize) -> Option<Self::Item> {
-        self.index += n + 1;
+        self.index = self.index.saturating_add(n).saturating_add(1);
         let pos = self.shape.nth(self.index - 1)?;
         let offset = self.shape.offset(pos);
 
